@@ -563,7 +563,11 @@ impl Ctx {
                                     }
                                 };
                                 let case = tree.current();
+                                let t_case = Instant::now();
                                 let out = run_guarded::<C>(&case, false);
+                                let ms = t_case.elapsed().as_millis() as u64;
+                                let e = agg.stats.entry("max_case_wall_ms").or_default();
+                                *e = (*e).max(ms);
                                 agg.evaluations += 1;
                                 agg.excluded += out.excluded_by_known_finding;
                                 for (k, v) in &out.stats {
